@@ -202,6 +202,6 @@ def check_case(ctx: Ctx, case) -> None:
 
 
 PARTS: list[Part] = [
-    hyp_part("calls", strat_cases, check_case, {"quick": 300, "thorough": 3000},
+    hyp_part("calls", strat_cases, check_case, {"quick": 300, "thorough": 7000},
              {"quick": 8, "thorough": 16}),
 ]
